@@ -357,6 +357,69 @@ def h_tables(ctx):
     ctx.outcome('ok')
 
 
+# ------------------------------------------------------------------ H17.8 a name selects its code through the filtering accessors
+def h_filters(ctx):
+    """iter_segments(type=NAME), iter_sections(type=NAME), Dynamic.iter_tags(type=NAME): asking for the name under which an entry is REPORTED selects
+    exactly the entries reported under that name - for every code of the field the registries name in this processor / OS context (one file
+    holding one program header, one section and one dynamic entry per code)."""
+    from harness.elfkit import Image
+    from harness import c01 as C1
+    from spec import elf_layout as L
+    cfg = ctx.cfg
+    cls, little, machine, osabi = cfg['elfclass'], cfg['little'], cfg['machine'], cfg.get('osabi')
+    EF = ctx.lib('elf.elffile')
+    EM = {None: 0, 'EM_ARM': 40, 'EM_AARCH64': 183, 'EM_X86_64': 62, 'EM_MIPS': 8, 'EM_RISCV': 243, 'EM_386': 3}[machine]
+    img = Image(cls, little, machine=EM, osabi=6 if osabi == 'ELFOSABI_SOLARIS' else 0)
+
+    def codes(field):
+        out = set()
+        for n in _names_of_field(ctx, field, machine, osabi, None):
+            out |= {v for v in _accepted(n) if 0 <= v < (1 << 32)}
+        return sorted(out)
+    pcodes, scodes, dcodes = codes('p_type'), [c for c in codes('sh_type') if c != 0], [c for c in codes('d_tag') if c != 0]
+    img.section('', sh_type=0)
+    stroff = img.blob([0, 0x61, 0])
+    img.section('.strtab', sh_type=3, sh_offset=stroff, sh_size=3)
+    symsz, dynsz = L.sizeof('SYM', cls), L.sizeof('DYN', cls)
+    symoff = img.blob([0] * symsz, align=8)
+    img.section('.symtab', sh_type=2, sh_offset=symoff, sh_size=symsz, sh_entsize=symsz, sh_link=1)
+    zoff = img.blob([0] * 32, align=8)
+    aoff = img.blob([0x41] + [0] * 31, align=8)            # build-attribute sections are checked for their format version ('A') on construction
+    dynoff = img.blob(sum([L.encode('DYN', cls, little, dict(d_tag=t, d_val=0)) for t in dcodes + [0]], []), align=8)
+    for c in scodes:
+        link = 2 if c in C1.LINK_SYMTAB else 1 if c in C1.LINK_STRTAB else 0
+        if c == 6:
+            img.section('.dynamic', sh_type=6, sh_offset=dynoff, sh_size=(len(dcodes) + 1) * dynsz, sh_entsize=dynsz, sh_link=1)
+        else:
+            img.section('.s%x' % c, sh_type=c, sh_offset=aoff if c >= 0x70000000 else zoff, sh_size=32, sh_link=link, sh_entsize={4: L.sizeof('RELA', cls), 9: L.sizeof('REL', cls), 19: cls // 8}.get(c, 8))
+    img.add_shstrtab()
+    for i, c in enumerate(pcodes):
+        img.segment(p_type=c, p_offset=dynoff if c == 2 else zoff, p_vaddr=i, p_filesz=(len(dcodes) + 1) * dynsz if c == 2 else 32)
+    elf = EF.ELFFile(ctx.stream(img.build()))
+    ctx.outcome('ok')
+    where = '%s/%s' % (machine, osabi)
+    # segments
+    allsegs = [(s['p_type'], s['p_vaddr']) for s in elf.iter_segments()]
+    ctx.check_eq('filters/%s/segments/count' % where, len(allsegs), len(pcodes))
+    for t in sorted({t for t, _ in allsegs}, key=str):
+        ctx.check_eq('filters/%s/iter_segments(type=%s)' % (where, t), [s['p_vaddr'] for s in elf.iter_segments(type=t)], [v for tt, v in allsegs if tt == t])
+    # sections
+    allsecs = [(s['sh_type'], s.name) for s in elf.iter_sections()]
+    ctx.check_eq('filters/%s/sections/count' % where, len(allsecs), len(scodes) + 4)
+    for t in sorted({t for t, _ in allsecs}, key=str):
+        ctx.check_eq('filters/%s/iter_sections(type=%s)' % (where, t), [s.name for s in elf.iter_sections(type=t)], [n for tt, n in allsecs if tt == t])
+    # dynamic entries, through the section and through the segment
+    views = [('section', elf.get_section_by_name('.dynamic'))] + [('segment', s) for s in elf.iter_segments() if type(s).__name__ == 'DynamicSegment']
+    ctx.check_eq('filters/%s/dynamic/views' % where, [v for v, _ in views], ['section', 'segment'])
+    for vname, dyn in views:
+        if dyn is None:
+            continue
+        alltags = [t.entry.d_tag for t in dyn.iter_tags()]
+        ctx.check_eq('filters/%s/dynamic/%s/count' % (where, vname), len(alltags), len(dcodes) + 1)
+        for t in sorted(set(alltags), key=str):
+            ctx.check_eq('filters/%s/dynamic/%s/iter_tags(type=%s)' % (where, vname, t), [x.entry.d_tag for x in dyn.iter_tags(type=t)], [tt for tt in alltags if tt == t])
+
+
 def _elf_instances(tier):
     out = []
     cfgs = [(True, 64), (False, 32)] if tier == 'quick' else [(l, c) for l in (True, False) for c in (32, 64)]
@@ -404,6 +467,9 @@ HARNESSES = [
       expect=('ok', 'rejected', 'zlib-error'),
       desc='the compression code of an Elf32/64_Chdr of fully symbolic bytes, in both classes and byte orders, is acted upon under its standard name: a '
            'section is inflated exactly when ch_type is ELFCOMPRESS_ZLIB (harness shared with C02)'),
+    H('h17_8_filters', h_filters, lambda tier: [dict(elfclass=c, little=l, machine=m, osabi=o) for (c, l) in ((64, True), (32, False)) for m in MACHINES for o in ((None,) if m else (None, 'ELFOSABI_SOLARIS'))], expect=('ok',), decoy=-1,
+      desc='a name selects its code through the accessors that filter by type name: iter_segments(type=), iter_sections(type=), Dynamic.iter_tags(type=) given the name an entry is reported under yield exactly the entries '
+           'reported under it, for every code the registries name for the field in the processor / OS context (ground instances: one file per context with one entry per code)'),
     H('h17_2_tables', h_tables, lambda tier: [dict(table=i) for i in range(0, 90)], expect=('ok',),
       desc='every exported (name, value) pair whose name a registry defines: value equals a registry value (ground obligations)'),
 ]
